@@ -6,12 +6,14 @@ import (
 	"context"
 	"io"
 	"math"
+	"sort"
 
 	pb "github.com/marekgalovic/anndb/protobuf"
 	"github.com/marekgalovic/anndb/services"
 
 	etcdRaft "github.com/coreos/etcd/raft"
 	"github.com/coreos/etcd/raft/raftpb"
+	uuid "github.com/satori/go.uuid"
 	"google.golang.org/grpc"
 	"google.golang.org/grpc/metadata"
 
@@ -207,6 +209,11 @@ func verifInstallNet() *verifNet {
 	v := &verifNet{members: map[uint64]*verifLinkedNode{}, servers: map[string]*Server{}, loseAt: -1}
 	verifNetV = v
 	verifrt.Hook("raftnode", func(kind string, cfg *etcdRaft.Config, npeers int) etcdRaft.Node {
+		if old := v.members[cfg.ID]; old != nil {
+			// the member's zero group is running: this is one of its partition
+			// groups, which the model does not replicate (a one-member group)
+			return verifNewBootNode(kind, cfg, npeers)
+		}
 		n := &verifLinkedNode{id: cfg.ID, readyc: make(chan etcdRaft.Ready, 64), net: v}
 		st := cfg.Storage
 		if cfg.ID == 1 {
@@ -390,3 +397,190 @@ func VerifC20Cluster() {
 	}
 	verifrt.Reach("end")
 }
+
+// verifCatalogue: canonical form of a member's catalogue (what List reports).
+func verifCatalogue(s *Server) ([]string, bool) {
+	list, err := s.datasetManager.List(context.Background(), false)
+	if err != nil {
+		return nil, false
+	}
+	var out []string
+	for _, d := range list {
+		e := string(d.GetId()) + "|" + string(rune('0'+d.GetDimension())) + string(rune('0'+d.GetPartitionCount())) + string(rune('0'+d.GetReplicationFactor()))
+		for _, p := range d.GetPartitions() {
+			e += "|" + string(p.GetId()) + ":"
+			for _, n := range p.GetNodeIds() {
+				e += string(rune('0' + n))
+			}
+		}
+		out = append(out, e)
+	}
+	sort.Strings(out)
+	return out, true
+}
+
+// VerifC14Cluster: the catalogue on a cluster of 2..3 real Servers over the
+// shared committed log of the C20 harness: datasets are created (through any
+// member, before and after the second member joined, with a replication
+// factor that may exceed the member count at creation so that the allocator
+// adds the joiner as a replica) and deleted; the leader optionally compacts;
+// a third member optionally joins late (and is caught up from the log or the
+// snapshot); any member restarts. After quiescence every live member must list
+// the same catalogue - same datasets, same partitions, same replica
+// assignment -, every acknowledged create must be listed and every
+// acknowledged delete absent.
+func VerifC14Cluster() {
+	verifrt.Preemptions(0)
+	verifrt.SchedDeterministic(true)
+	v := verifInstallNet()
+	members := verifrt.Bound("members", 2)
+	maxP := verifrt.Bound("maxp", 2)
+	port := func(id uint64) string { return string(rune('5'+id)) + "000" }
+	addr := func(id uint64) string { return ":" + port(id) }
+	cfgs := map[uint64]*Config{}
+	live := map[uint64]*Server{}
+	start := func(id uint64) *Server {
+		s := NewServer(cfgs[id])
+		if err := s.setup(); err != nil {
+			verifrt.Assert(false, "start-succeeds")
+			return nil
+		}
+		live[id] = s
+		v.servers[addr(id)] = s
+		verifrt.Quiesce()
+		return s
+	}
+	join := func(id uint64) bool {
+		cfgs[id] = &Config{RaftNodeId: id, DataDir: "/verif-data-" + string(rune('a'+id)), Port: port(id), JoinNodes: []string{addr(1)}}
+		s := start(id)
+		if s == nil {
+			return false
+		}
+		verifrt.Assert(s.JoinCluster() == nil, "join-acknowledged")
+		verifrt.Quiesce()
+		return true
+	}
+	cfgs[1] = &Config{RaftNodeId: 1, DataDir: "/verif-data-b", Port: port(1)}
+	if start(1) == nil {
+		return
+	}
+	ctx := context.Background()
+	want := map[string]bool{}
+	var created [][]byte
+	create := func(via uint64, n int) {
+		req := &pb.Dataset{Dimension: uint32(2 + n), PartitionCount: uint32(verifrt.IntIn("partitions", 1, maxP)), ReplicationFactor: uint32(verifrt.IntIn("replication", 1, 2))}
+		ds, err := live[via].datasetManager.Create(ctx, req)
+		verifrt.Assert(err == nil, "create-acknowledged")
+		if err == nil {
+			want[string(ds.Meta().GetId())] = true
+			created = append(created, ds.Meta().GetId())
+		}
+		verifrt.Quiesce()
+	}
+	n := 0
+	if verifrt.Choose("create-before-join", 2) == 1 {
+		create(1, n)
+		n++
+	}
+	if !join(2) {
+		return
+	}
+	if verifrt.Choose("create-after-join", 2) == 1 {
+		create(uint64(1+verifrt.Choose("create-via", 2)), n)
+		n++
+	}
+	if len(created) > 0 && verifrt.Choose("delete-first", 2) == 1 {
+		via := uint64(1 + verifrt.Choose("delete-via", 2))
+		id, _ := uuidFromBytes(created[0])
+		verifrt.Assert(live[via].datasetManager.Delete(ctx, id) == nil, "delete-acknowledged")
+		want[string(created[0])] = false
+		verifrt.Tag("with-delete")
+		verifrt.Quiesce()
+	}
+	compacted := false
+	if verifrt.Choose("compact", 2) == 1 {
+		verifrt.Assert(live[1].zeroGroup.VerifTrySnapshot(uint64(len(v.log)), 0) == nil, "catalogue-log-compaction-succeeds")
+		compacted = true
+	}
+	if members >= 3 && verifrt.Choose("late-joiner", 2) == 1 {
+		if !join(3) {
+			return
+		}
+		verifrt.Tag("with-late-joiner")
+	}
+	check := func(label string) {
+		ref, ok := verifCatalogue(live[1])
+		verifrt.Assert(ok, "list-succeeds")
+		nWant := 0
+		for id, present := range want {
+			found := false
+			for _, e := range ref {
+				if len(e) >= len(id) && e[:len(id)] == id {
+					found = true
+				}
+			}
+			if present {
+				nWant++
+				verifrt.Assert(found, "acknowledged-dataset-listed")
+			} else {
+				verifrt.Assert(!found, "deleted-dataset-not-listed")
+			}
+		}
+		verifrt.Assert(len(ref) == nWant, "nothing-else-listed")
+		if list, err := live[1].datasetManager.List(ctx, false); err == nil {
+			// vacuity witness: some partition has two replicas (created with both members
+			// present, or the allocator added the joiner to an under-replicated one)
+			for _, d := range list {
+				for _, p := range d.GetPartitions() {
+					if len(p.GetNodeIds()) == 2 {
+						verifrt.Reach("partition-with-two-replicas")
+					}
+				}
+			}
+		}
+			for id, s := range live {
+			if id == 1 {
+				continue
+			}
+			got, ok := verifCatalogue(s)
+			same := ok && len(got) == len(ref)
+			if same {
+				for i := range ref {
+					if got[i] != ref[i] {
+						same = false
+					}
+				}
+			}
+			verifrt.Assert(same, label)
+		}
+	}
+	if compacted {
+		verifrt.Tag("after-compaction")
+	}
+	verifrt.Reach("settled")
+	check("every-member-lists-the-same-catalogue")
+	rid := uint64(verifrt.IntIn("restart-member", 0, members))
+	if s, ok := live[rid]; ok {
+		s.zeroGroup.Stop()
+		delete(live, rid)
+		delete(v.servers, addr(rid))
+		verifrt.Quiesce()
+		if verifrt.Choose("restart-with", 2) == 1 && rid != 1 {
+			c := cfgs[rid]
+			cfgs[rid] = &Config{RaftNodeId: rid, DataDir: c.DataDir, Port: c.Port, DoNotJoinCluster: true}
+		}
+		ns := start(rid)
+		if ns == nil {
+			return
+		}
+		if !cfgs[rid].DoNotJoinCluster {
+			verifrt.Assert(ns.JoinCluster() == nil, "rejoin-acknowledged")
+		}
+		verifrt.Quiesce()
+		verifrt.Reach("restarted")
+		check("restarted-member-lists-the-same-catalogue")
+	}
+	verifrt.Reach("end")
+}
+
+func uuidFromBytes(b []byte) (uuid.UUID, error) { return uuid.FromBytes(b) }
